@@ -21,10 +21,10 @@ type Ty struct {
 	Map  *Ty
 }
 
-func P(p Prim) Ty      { return Ty{Prim: p} }
-func R(n string) Ty    { return Ty{Ref: n} }
-func A(t Ty) Ty        { return Ty{Arr: &t} }
-func M(t Ty) Ty        { return Ty{Map: &t} }
+func P(p Prim) Ty         { return Ty{Prim: p} }
+func R(n string) Ty       { return Ty{Ref: n} }
+func A(t Ty) Ty           { return Ty{Arr: &t} }
+func M(t Ty) Ty           { return Ty{Map: &t} }
 func (t Ty) IsZero() bool { return t.Prim == "" && t.Ref == "" && t.Arr == nil && t.Map == nil }
 
 func (t Ty) Sexp() string {
@@ -100,7 +100,7 @@ func (e *Env) AllFields(n string) []Field {
 
 func hexs(s string) string { return hx.Hex([]byte(s)) }
 
-func (d *Decl) Sexp() string {
+func (d *Decl) Sexp(e *Env) string {
 	switch d.Kind {
 	case "enum":
 		parts := []string{"enum"}
@@ -117,7 +117,9 @@ func (d *Decl) Sexp() string {
 		for _, f := range d.Fields {
 			df := "-"
 			if f.Default != nil {
-				df = f.Default.Sexp()
+				// the default as the generated code holds it: the literal read as a document of the
+				// field's type, i.e. with the own defaults of nested records filled in
+				df = e.expectedOwnOnly(f.Ty, f.Default).Sexp()
 			}
 			opt := "0"
 			if f.Optional {
@@ -185,7 +187,7 @@ func (e *Env) Closure(roots ...string) string {
 	sort.Strings(names)
 	parts := []string{"env"}
 	for _, n := range names {
-		parts = append(parts, "("+n+" "+e.Find(n).Sexp()+")")
+		parts = append(parts, "("+n+" "+e.Find(n).Sexp(e)+")")
 	}
 	return "(" + strings.Join(parts, " ") + ")"
 }
